@@ -1028,7 +1028,8 @@ class Router(object):
                     # match everything after a slash
                     # and store in a capture group
                     tokens.append(part[1: -1])
-                    re_str += "(?:\\/(.*)|\\/)?"
+                    # (lazy: the one tolerated trailing slash is not part of the value)
+                    re_str += "(?:\\/(.*?)|\\/)?"
                     final = True
                 elif c == '+':
                     if final:
